@@ -288,7 +288,7 @@ def verify(h, repo, tier="quick", log=None):
             return ("ok", res, goals, st)
 
         try:
-            for pidx, (c, out) in enumerate(explore(run, make_ctx)):
+            for pidx, (c, out) in enumerate(explore(run, make_ctx, budget_s=(getattr(h, 'budget_s', 240) if tier == 'quick' else getattr(h, 'budget_s_thorough', 1500)))):
                 stats["paths"] += 1
                 stats["solver_calls"] += c.solver_calls
                 pname = f"{h.name}[{cname}]/path{pidx}"
